@@ -288,6 +288,12 @@ def run(ctx):
                 if hf is None or not hf.id.startswith(S) or hf.id == S + "restore_missing_output":
                     continue
                 hs, hd = cfg.find_calls(hf, c.WOB + "save"), cfg.find_calls(hf, c.WOB + "delete")
+                # only the writes of the record the helper was handed (it may also release other records of the
+                # entry it cancels, read from the wallet inside the helper)
+                recp = [i for i in range(1, hf.argc + 1) if OD in (hf.locals[i].get("ty") or "")]
+                if len(recp) == 1:
+                    hs = [(b_, t_) for b_, t_ in hs if ("arg", recp[0]) in vf.producers(hf, t_["a"][1])]
+                    hd = [(b_, t_) for b_, t_ in hd if ("arg", recp[0]) in vf.producers(hf, t_["a"][1])]
                 flags = [i for i in range(1, hf.argc + 1) if hf.locals[i]["ty"] == "bool"]
                 if not (hs and hd and len(flags) == 1):
                     continue
@@ -696,8 +702,32 @@ def run(ctx):
                                     cl_ok = True
                 if cl_ok and vf.has_call(base, UPD + "retrieve_outputs"):
                     allrec = True
-        held = not (ranged and allrec)
-        run.instance(R10, {"fn": "scan", "obligation": "Locked records to release and Unconfirmed records to drop are taken from the same scope", "locked: scanned range only": ranged, "unconfirmed: all records": allrec}, held=held)
+        # ... unless the entry is cancelled together with everything it still has locked: the helper that cancels reads
+        # the wallet's records of that entry (tx_log_entry == id, status == Locked) and saves them in its batch
+        by_tx = False
+        for hb, ht in sc.calls():
+            hf = db.fns.get(ht.get("f") or "")
+            if hf is None or not hf.id.startswith(S) or not cfg.find_calls(hf, c.WOB + "save_tx_log_entry"):
+                continue
+            it = cfg.find_calls(hf, c.WB + "iter")
+            sel_ok = False
+            for k in db.closures_of(hf.id):
+                g = db.fns[k]
+                has_entry = has_locked = False
+                for x in cfg.comparisons(g):
+                    pl, pr_ = vf.producers(g, x.l) | vf.get_flow(g).of_operand(x.l), vf.producers(g, x.r) | vf.get_flow(g).of_operand(x.r)
+                    for a, b_ in ((pl, pr_), (pr_, pl)):
+                        if vf.has_field(a, OD, "tx_log_entry") and x.op == "Eq":
+                            has_entry = True
+                        if vf.has_field(a, OD, "status") and ("agg", OS, "Locked") in b_ and x.op == "Eq":
+                            has_locked = True
+                if has_entry and has_locked:
+                    sel_ok = True
+            rel_saves = [b_ for b_, t_ in cfg.find_calls(hf, c.WOB + "save") if vf.has_call(vf.origins(hf, t_["a"][1]), c.WB + "iter")]
+            if it and sel_ok and rel_saves:
+                by_tx = True
+        held = not (ranged and allrec) or by_tx
+        run.instance(R10, {"fn": "scan", "obligation": "Locked records to release and Unconfirmed records to drop are taken from the same scope, or an entry is cancelled together with all it has locked", "locked: scanned range only": ranged, "unconfirmed: all records": allrec, "cancel releases by transaction": by_tx}, held=held)
         if not held:
             run.finding(Finding(R10, sc.id, "with a start height, delete_unconfirmed cancels a transaction because of its unconfirmed output (whatever its height) but releases only the reserved inputs it finds in the scanned range: older inputs stay Locked under a cancelled transaction", site=sc.loc()))
     run.not_decided += [
